@@ -125,6 +125,11 @@ def _call_law(law, ch, res, skip, target):
     signature of the discrepancy (after recording it)."""
     try:
         limit = _case_limit()
+        af = os.environ.get("VF_ABORT_FILE")
+        if af and os.path.exists(af):
+            res.abort = True
+            res.skipped_cases += 1
+            return None
         try:
             _run_with_watchdog(law.fn, ch, limit)
         except CaseTimeout:
@@ -171,8 +176,15 @@ def _call_law(law, ch, res, skip, target):
         return None
     if sig == NONTERM:
         # nothing can be explored behind a case that does not return: the
-        # shard stops here (no shrinking, no further rounds)
+        # shard stops here (no shrinking, no further rounds), and so do the
+        # others
         res.abort = True
+        af = os.environ.get("VF_ABORT_FILE")
+        if af:
+            try:
+                open(af, "w").close()
+            except OSError:
+                pass
     if sig in skip:
         res.skipped_sigs[sig] += 1
         return None
@@ -336,6 +348,17 @@ def main(argv=None):
         return 2
     seed = int(os.environ.get("VERIF_SEED", "1"))
     os.environ["VF_TIER"] = tier
+    # shards tell each other through this file that a case did not terminate
+    # (nothing can be explored behind it; without this every shard of every
+    # law would sit through the watchdog on its own)
+    import tempfile
+
+    abort_dir = tempfile.mkdtemp(prefix="vf_abort_")
+    os.environ["VF_ABORT_FILE"] = os.path.join(abort_dir, "nonterm")
+    import atexit
+    import shutil
+
+    atexit.register(shutil.rmtree, abort_dir, True)
     t0 = time.time()
 
     import warnings
